@@ -17,6 +17,14 @@
 //	   ext hashes = h1,h2,…
 //	   obs A <kept> B <kept> n <n>
 //
+//	-- one long-lived real StressRelief per case (real Start(), periodic loop off, idle queues, fake clock),
+//	   initialised like the collector does with UpdateFromConfig for the header's smode=/srate=:
+//	sreload <mode> <rate>           configuration reload: MockConfig.StressRelief{Mode, SamplingRate}, UpdateFromConfig()
+//	srecalc                         Recalc()                      obs stressed=<bool>
+//	sask <id>                       GetSampleRate(id) on the long-lived instance (L) and on a fresh instance
+//	                                configured with the most recently configured rate (F)
+//	   ext wyhash <id> = <h>        obs A <L answer> B <F answer>
+//
 // Trace IDs are percent-encoded tokens (kit.Enc).
 package main
 
@@ -29,15 +37,19 @@ import (
 	"strconv"
 	"strings"
 	"sync"
+	"time"
 
 	"github.com/dgryski/go-wyhash"
 	"github.com/honeycombio/refinery/collect"
 	"github.com/honeycombio/refinery/config"
+	"github.com/honeycombio/refinery/internal/peer"
 	kit "github.com/honeycombio/refinery/internal/verifkit"
 	"github.com/honeycombio/refinery/logger"
 	"github.com/honeycombio/refinery/metrics"
+	"github.com/honeycombio/refinery/pubsub"
 	"github.com/honeycombio/refinery/sample"
 	"github.com/honeycombio/refinery/types"
+	"github.com/jonboulle/clockwork"
 )
 
 // ---- the hash graph, computed with the same library calls and the packages' own constants
@@ -192,7 +204,36 @@ func (comp) Gen(r *kit.Rng, maxLen int, tier string) kit.Case {
 	}
 	n := 4 + r.Intn(maxLen)
 	var ops []string
+	modes := []string{"never", "monitor", "always"}
+	smallRate := func() uint64 {
+		if r.Chance(80) {
+			return uint64(1 + r.Intn(12))
+		}
+		return stressBoundary[r.Intn(len(stressBoundary))]
+	}
+	smode, srate := modes[r.Intn(3)], smallRate()
 	for i := 0; i < n; i++ {
+		if r.Chance(30) { // the long-lived StressRelief: reloads, state changes and questions in between
+			switch r.Pick(30, 25, 45) {
+			case 0:
+				m := modes[r.Intn(3)]
+				if r.Chance(50) {
+					m = "always"
+				}
+				ops = append(ops, fmt.Sprintf("sreload %s %d", m, smallRate()))
+			case 1:
+				ops = append(ops, "srecalc")
+			default:
+				for k := 1 + r.Intn(3); k > 0; k-- {
+					id := ids[r.Intn(np)]
+					if r.Chance(50) {
+						id = hexID(r, 16)
+					}
+					ops = append(ops, "sask "+kit.Enc(id))
+				}
+			}
+			continue
+		}
 		if len(ops) > 0 && r.Chance(10) { // the same question again, later in the case
 			ops = append(ops, ops[r.Intn(len(ops))])
 			continue
@@ -215,7 +256,7 @@ func (comp) Gen(r *kit.Rng, maxLen int, tier string) kit.Case {
 		}
 		ops = append(ops, fmt.Sprintf("frac %s %d %d %d", kind, r.Next()>>1, fracN, fracRates[r.Intn(len(fracRates))]))
 	}
-	return kit.Case{Header: fmt.Sprintf("pool=%d", np), Ops: ops}
+	return kit.Case{Header: fmt.Sprintf("pool=%d smode=%s srate=%d", np, smode, srate), Ops: ops}
 }
 
 // ---- running the real code
@@ -280,10 +321,53 @@ func fmtDec(rate uint, keep bool, reason string) string {
 type runner struct {
 	det    map[int]sample.Sampler
 	stress map[uint64]*collect.StressRelief
+	// the long-lived instance, its configuration source and the rate configured last
+	live    *collect.StressRelief
+	ps      *pubsub.LocalPubSub
+	liveCfg *config.MockConfig
+	cfgRate uint64
 }
 
+type nopHealth struct{}
+
+func (nopHealth) Register(string, time.Duration) {}
+func (nopHealth) Unregister(string)              {}
+func (nopHealth) Ready(string, bool)             {}
+
 func (comp) NewCase(h []string) kit.Runner {
-	return &runner{det: map[int]sample.Sampler{}, stress: map[uint64]*collect.StressRelief{}}
+	rn := &runner{det: map[int]sample.Sampler{}, stress: map[uint64]*collect.StressRelief{}}
+	mode, rate := "never", uint64(100)
+	if m := kit.KV(h, "smode"); m != "" {
+		mode = m
+	}
+	if v, err := strconv.ParseUint(kit.KV(h, "srate"), 10, 64); err == nil {
+		rate = v
+	}
+	met := &metrics.MockMetrics{}
+	met.Start()
+	ps := &pubsub.LocalPubSub{Metrics: met}
+	ps.Start()
+	rn.ps = ps
+	rn.liveCfg = &config.MockConfig{}
+	rn.live = &collect.StressRelief{
+		RefineryMetrics: met, Config: rn.liveCfg, Logger: &logger.NullLogger{}, Health: nopHealth{},
+		PubSub: ps, Peer: peer.NewMockPeers(nil, "p0"), Clock: clockwork.NewFakeClock(), Done: make(chan struct{}),
+	}
+	rn.live.VerifDetermNoLoop()
+	if err := rn.live.Start(); err != nil {
+		panic(err)
+	}
+	rn.reload(mode, rate) // collector start-up
+	return rn
+}
+
+func (r *runner) reload(mode string, rate uint64) {
+	r.liveCfg.Mux.Lock()
+	r.liveCfg.StressRelief = config.StressReliefConfig{Mode: mode, ActivationLevel: 90, DeactivationLevel: 75,
+		SamplingRate: rate, MinimumActivationDuration: config.Duration(10 * time.Second)}
+	r.liveCfg.Mux.Unlock()
+	r.cfgRate = rate
+	r.live.UpdateFromConfig()
 }
 
 // long-lived instance per (case, rate)
@@ -353,6 +437,33 @@ func (rn *runner) Do(op []string) (string, bool) {
 			})
 		}
 		return "A " + ask(rn.stressA) + " B " + ask(newStress), true
+	case "sreload":
+		if len(op) != 3 {
+			return "bad-op", true
+		}
+		rate, err := strconv.ParseUint(op[2], 10, 64)
+		if err != nil || (op[1] != "never" && op[1] != "monitor" && op[1] != "always") {
+			return "bad-op", true
+		}
+		rn.reload(op[1], rate)
+		return "", false
+	case "srecalc":
+		rn.live.Recalc()
+		return fmt.Sprintf("stressed=%t", rn.live.Stressed()), true
+	case "sask":
+		if len(op) != 2 {
+			return "bad-op", true
+		}
+		id := kit.Dec(op[1])
+		kit.Ext("wyhash %s = %d", op[1], wyh(id))
+		ask := func(s func() *collect.StressRelief) string {
+			return catch(func() string {
+				r, keep, reason := s().GetSampleRate(id)
+				return fmtDec(r, keep, reason)
+			})
+		}
+		return "A " + ask(func() *collect.StressRelief { return rn.live }) +
+			" B " + ask(func() *collect.StressRelief { return newStress(rn.cfgRate) }), true
 	case "frac":
 		if len(op) != 5 {
 			return "bad-op", true
@@ -427,6 +538,9 @@ func (rn *runner) Do(op []string) (string, bool) {
 	return "bad-op", true
 }
 
-func (*runner) Close() {}
+func (r *runner) Close() {
+	close(r.live.Done)
+	r.ps.Stop()
+}
 
 func main() { kit.Main(comp{}, nil) }
